@@ -1130,6 +1130,9 @@ def optimum_threshold(mu0,mu1,S0,S1, modulation: Literal['ook', 'ppm'], M=None):
     s1=S1**0.5
     s0=S0**0.5
 
+    if np.all(S1 == S0):  # equal variances: the likelihood equation is linear
+        return (mu0 + mu1)/2 + S0*np.log(M-1)/(mu1 - mu0)
+
     threshold = 1/(S1-S0)*(mu0*S1 - mu1*S0 + s1*s0*np.sqrt((mu1-mu0)**2 + 2*(S1-S0)*np.log(s1/s0*(M-1))))
     return threshold
 
